@@ -207,5 +207,13 @@ for _k, _t in (('C01', 'forward-taint lint for python-scalar division'), ('C02',
     CHECKS[_k]['technique'] += '; ' + _t
 for _k in ('C06', 'C12', 'C13', 'C14', 'C16', 'C17', 'C19'):
     CHECKS[_k]['technique'] += '; rules borrowed from the property that anchors a function this one depends on (sa/check.py:BORROWED)'
+CHECKS['C01']['text'] = CHECKS['C01']['text'] + ' NEVER-COPY: no np.array / np.asarray with copy=False on the analysis path (installed numpy major version consulted: >= 2 raises whenever a conversion is needed).'
+CHECKS['C09']['text'] = CHECKS['C09']['text'] + ' OPTIONS-STABLE: compute_features writes through none of its arguments, nested option dictionaries reached through shallow copies included (both analyses of a mirror pair receive the same option objects).'
+CHECKS['C14']['text'] = CHECKS['C14']['text'] + ' Borrowed from C16: the functional edge recomputation the object is measured against is the documented one (EDGE-DEF, EDGES-DEF).'
+for _k in ('C01', 'C02', 'C03', 'C04', 'C05', 'C06', 'C07', 'C08', 'C09', 'C10', 'C11', 'C12', 'C13', 'C14', 'C16', 'C17', 'C18', 'C19', 'C20'):
+    CHECKS[_k]['text'] = CHECKS[_k]['text'] + ' Shared clause VALUE-IDENTITY: no function reachable from the entry points compares a string / number / tuple value with `is`.'
+    CHECKS[_k]['technique'] += '; syntax-tree lint for identity comparison against value literals and module constants (resolved through imports)'
+CHECKS['C01']['technique'] += '; version-keyed API lint (np.array copy=False)'
+CHECKS['C09']['technique'] += '; closed effect summary with depth tracking through shallow copies'
 for _k in CHECKS:
     CHECKS[_k]['text'] = CHECKS[_k]['text'] + ' Every path the rules evaluate must also be free of exactly modelled Python errors (NO-PYERROR); where the anchored entry points document a default, the signature default equals it (DOC-DEFAULT).'
